@@ -164,7 +164,29 @@ def history(mon, rng, length, long=False):
         mon.sample({"K": K, "m": m, "ops_head": ops[:8]})
 
 
+def huge_model(mon, rng):
+    """tens of thousands of designs (a fine grid): indices must not wrap or be truncated"""
+    from vopy.models import EmpiricalMeanVarModel
+
+    K = int(rng.choice([33000, 40000, 70000]))
+    m = 2
+    model = EmpiricalMeanVarModel(1, m, 0.5, K, track_variances=False)
+    idx = sorted({int(i) for i in rng.integers(K, size=12)} | {K - 1, K - 2, 32767, 32768})
+    Y = rng.normal(size=(len(idx), m)) + 10
+    model.add_sample(idx, Y.copy())
+    model.update()
+    X = np.hstack([rng.random((len(idx), 1)), np.array(idx, float)[:, None]])
+    means, _ = model.predict(X)
+    mon.count("huge_design_count_models")
+    mon.event(case_hash("huge", K, idx), True, "huge-design-count")
+    if not np.allclose(means, Y, rtol=1e-12, atol=0):
+        bad = [i for i, a, b in zip(idx, means, Y) if not np.allclose(a, b)]
+        mon.violation("empirical:mean", f"{K} designs: designs {bad[:5]} report a mean that is not their sample", {"K": K, "idx": idx})
+
+
 def shard(mon, tier, rng, shard_no, nshards):
+    if shard_no % 4 == 0:
+        huge_model(mon, rng)
     n = max(2, N[tier] // nshards)
     for _ in range(n):
         if rng.random() < 0.15:
